@@ -333,3 +333,49 @@ Definition t32_misc_table : list (entry (option Z)) := [
   row "xxxxxxxxxx 01 xxxx xxxx xxxx xx 11 xxxx" (O enc_RevshT2);
   row "xxxxxxxxxx 10 xxxx xxxx xxxx xx 00 xxxx" (O enc_SelT1);
   row "xxxxxxxxxx 11 xxxx xxxx xxxx xx 00 xxxx" (O enc_ClzT1) ].
+
+(* ---------- A6.3.4 Branches and miscellaneous control: op(26:20) op1(14:12) op2(11:8) imm8(7:0) ---------- *)
+Local Notation NOTIMPL := (LRet (Err ENotImpl)) (only parsing).
+Definition t32_bmc_env : list (Z -> res (option Z)) :=
+  [ fun w => ebind (dec_thumb_change_processor_state_and_hints w) (fun t => Val t);
+    fun w => ebind (dec_thumb_miscellaneous_control_instructions w) (fun t => Val t) ].
+Definition t32_bmc_table : list (entry (res (option Z))) := [
+  row "xxxxx 011100x xxxx x 0x0 xxxx xx1xxxxx" NOTIMPL;                              (* MSR (banked register) *)
+  row "xxxxx 0111000 xxxx x 0x0 xx00 xx0xxxxx" (RC enc_MsrRegisterApplicationT1);
+  row "xxxxx 0111000 xxxx x 0x0 xxxx xx0xxxxx" (RC enc_MsrRegisterSystemT1);
+  row "xxxxx 0111001 xxxx x 0x0 xxxx xx0xxxxx" (RC enc_MsrRegisterSystemT1);
+  row "xxxxx 0111010 xxxx x 0x0 xxxx xxxxxxxx" (LCall 0);
+  row "xxxxx 0111011 xxxx x 0x0 xxxx xxxxxxxx" (LCall 1);
+  row "xxxxx 0111100 xxxx x 0x0 xxxx xxxxxxxx" (RC enc_BxjT1);
+  row "xxxxx 0111101 xxxx x 0x0 xxxx 00000000" (RC enc_EretT1);
+  row "xxxxx 0111101 xxxx x 0x0 xxxx xxxxxxxx" (RC enc_SubsPcLrThumbT1);
+  row "xxxxx 011111x xxxx x 0x0 xxxx xx1xxxxx" NOTIMPL;                              (* MRS (banked register) *)
+  row "xxxxx 0111110 xxxx x 0x0 xxxx xx0xxxxx" (RC enc_MrsApplicationT1);
+  row "xxxxx 0111111 xxxx x 0x0 xxxx xx0xxxxx" (RC enc_MrsSystemT1);
+  row "xxxxx 1111110 xxxx x 000 xxxx xxxxxxxx" NOTIMPL;                              (* HVC *)
+  row "xxxxx 1111111 xxxx x 000 xxxx xxxxxxxx" (RC enc_SmcT1);
+  row "xxxxx 1111111 xxxx x 010 xxxx xxxxxxxx" (RC enc_UdfT2);
+  row "xxxxx x111xxx xxxx x 0x0 xxxx xxxxxxxx" (LRet (Val None));
+  row "xxxxx xxxxxxx xxxx x 0x0 xxxx xxxxxxxx" (RC enc_BT3);
+  row "xxxxx xxxxxxx xxxx x 0x1 xxxx xxxxxxxx" (RC enc_BT4);
+  row "xxxxx xxxxxxx xxxx x 1x0 xxxx xxxxxxxx" (RC enc_BlBlxImmediateT2);
+  row "xxxxx xxxxxxx xxxx x 1x1 xxxx xxxxxxxx" (RC enc_BlBlxImmediateT1) ].
+
+(* ---------- A6.3.4 Change Processor State, and hints: op1(10:8) op2(7:0) ---------- *)
+Definition t32_cps_table : list (entry (res (option Z))) := [
+  row "xxxxxxxxxxxxxxxx xxxxx 000 00000000" (RC enc_NopT2);
+  row "xxxxxxxxxxxxxxxx xxxxx 000 00000001" (RC enc_YieldT2);
+  row "xxxxxxxxxxxxxxxx xxxxx 000 00000010" (RC enc_WfeT2);
+  row "xxxxxxxxxxxxxxxx xxxxx 000 00000011" (RC enc_WfiT2);
+  row "xxxxxxxxxxxxxxxx xxxxx 000 00000100" (RC enc_SevT2);
+  row "xxxxxxxxxxxxxxxx xxxxx 000 1111xxxx" NOTIMPL;                                 (* DBG *)
+  row "xxxxxxxxxxxxxxxx xxxxx 000 xxxxxxxx" (LRet (Val None));
+  row "xxxxxxxxxxxxxxxx xxxxx xxx xxxxxxxx" (RC enc_CpsThumbT2) ].
+
+(* ---------- A6.3.4 Miscellaneous control instructions: op(7:4) ---------- *)
+Definition t32_mctl_table : list (entry (res (option Z))) := [
+  row "xxxxxxxxxxxxxxxx xxxxxxxx 000x xxxx" (RC enc_EnterxLeavexT1);
+  row "xxxxxxxxxxxxxxxx xxxxxxxx 0010 xxxx" (RC enc_ClrexT1);
+  row "xxxxxxxxxxxxxxxx xxxxxxxx 0100 xxxx" (RC enc_DsbT1);
+  row "xxxxxxxxxxxxxxxx xxxxxxxx 0101 xxxx" NOTIMPL;                                 (* DMB *)
+  row "xxxxxxxxxxxxxxxx xxxxxxxx 0110 xxxx" (RC enc_IsbT1) ].
